@@ -73,10 +73,15 @@ ConnectRefused ==
   /\ UNCHANGED <<proc, step, got, errs, ownerClosed, dead>>
 
 \* ---- requests ----------------------------------------------------------------------
+\* Requests reach the sink only after its Open() completed (the pool waits for it), or once it is dead.
 Request(r) ==
   /\ got[r] = 0 /\ r # proc /\ r \notin dead
+  /\ (proc # 0 \/ sock = "open" \/ tstate = "Closed")
   /\ IF proc # 0
      THEN \* ChannelConcurrencyError answered at once
+          Deliver(r, TRUE) /\ UNCHANGED <<proc, step>>
+     ELSE IF sock # "open"
+     THEN \* a dead sink: the transaction's write fails at once, _Fault is a no-op (already Closed)
           Deliver(r, TRUE) /\ UNCHANGED <<proc, step>>
      ELSE proc' = r /\ step' = "spawned" /\ UNCHANGED <<got, errs>>
   /\ UNCHANGED <<sock, tstate, opening, signals, failed, inflightAtFail, ownerClosed, dead>>
@@ -122,12 +127,17 @@ ReopenRefused ==
           /\ UNCHANGED <<tstate, signals, proc, got, errs>>
   /\ UNCHANGED <<opening, ownerClosed>>
 
-\* the owner closes the sink: the transaction is killed without an answer (not a failure)
+\* The owner closes the sink (not a failure).  Closing the socket cancels the transaction's pending
+\* read first (it raises into the greenlet, which answers its request with that error; _Fault is a
+\* no-op on a Closed sink), the kill comes second.  A transaction parked in the re-connect is just killed.
 OwnerClose ==
   /\ ~ownerClosed
   /\ ownerClosed' = TRUE /\ tstate' = "Closed" /\ sock' = "none" /\ opening' = FALSE
+  /\ IF proc # 0 /\ step \in {"spawned", "wrote", "hdr"}
+     THEN Deliver(proc, TRUE)
+     ELSE UNCHANGED <<got, errs>>
   /\ proc' = 0 /\ step' = "none"
-  /\ UNCHANGED <<got, errs, signals, failed, inflightAtFail, dead>>
+  /\ UNCHANGED <<signals, failed, inflightAtFail, dead>>
 
 Next == Open \/ ConnectOk \/ ConnectRefused \/ (\E r \in Reqs : Request(r))
         \/ TxnOk \/ TxnFault \/ TxnTimeout \/ ReopenOk \/ ReopenRefused \/ OwnerClose
